@@ -319,6 +319,17 @@ class Interp(object):
             # dictionary methods with a symbolic key (or symbolic keys in the dictionary): by value
             from . import summaries
             args = [summaries._canon_key(self, owner, args[0])] + list(args[1:])
+        if isinstance(owner, (bytes, bytearray)) and getattr(f, '__name__', '') == 'join' and len(args) == 1:
+            items = list(self.iterate(args[0])) if not isinstance(args[0], (list, tuple)) else list(args[0])
+            if any(isinstance(x, SBuf) for x in items):
+                # separator.join(items) over cells
+                cells = []
+                for k, x in enumerate(items):
+                    if k:
+                        cells += list(owner)
+                    cells += x.cells() if isinstance(x, SBuf) else list(bytes(x))
+                return SBuf(cells, 'bytes')
+            args = [items]
         trusted = (isinstance(owner, (SInt, SBool, SBuf)) or isinstance(f, type) and issubclass(f, BaseException)
                    or getattr(type(owner), '_pyvc_trusted', False) or getattr(f, '_pyvc_trusted', False))
         try:
